@@ -140,4 +140,24 @@ Section CiteRun.
       + right. right. right. exists s1, p1. split; [exact H1|]. split; [exact Hp|]. right. rewrite <- Hp. exact K.
       + right. left. exists s1. exact K.
   Qed.
+
+  (* from the initial state: prev_element_debug_info is empty and no error escapes without statement context *)
+  Theorem lexec_file_init_error_cite fuel ms g0 p e :
+    lexec_file t fl cfg glob regexes find call fuel ms (linit g0) p = Err e ->
+    cancelled e \/ forced' e \/ cites_executed ms e \/
+    exists s1 p1, lexec_blocks fuel ms (linit g0) p = Ok (tt, s1, p1) /\
+                  cites_deferred [] (l_edges s1 ++ l_attrs s1 ++ l_prints s1) e.
+  Proof.
+    intros H. destruct (lexec_file_error_cite _ _ _ _ _ H) as [K|[K|[K|(s1 & p1 & H1 & _ & [K|K])]]]; auto.
+    - exfalso. destruct (lexec_file_error_valid_lemma t fl cfg glob regexes find call fuel ms g0 p e Hcall H) as [[l ->]|(cs & e0 & -> & _)].
+      + eapply cancelled_not_unwrapped, K.
+      + eapply stmt_ctx_not_unwrapped, K.
+    - right. right. right. exists s1, p1. split; [exact H1|exact K].
+  Qed.
+
+  (* whatever forcing a thunk raises carries a statement context: an unwrapped error never comes out of a thunk *)
+  Theorem force_thunk_error_not_plain fuel loc s p e : force_thunk t fl call fuel loc s p = Err e -> ~ unwrapped e.
+  Proof.
+    intros H. destruct (force_thunk_error_origin _ _ _ _ _ H) as [[l ->]|Ho]; [apply cancelled_not_unwrapped|eapply origin_not_unwrapped, Ho].
+  Qed.
 End CiteRun.
